@@ -1,6 +1,10 @@
 SPECIFICATION Spec
 CONSTANTS
-  Scope = "full"
+  MaxRanges = 3
+  MaxOffers = 2
+  QSet = {0, 500, 1000}
+  PSets <- PSmall
+  TokMaxRanges = 4
 INVARIANT Emit
 INVARIANT ZeroNeverSelects
 INVARIANT AbsentSelectsFirst
